@@ -1551,7 +1551,7 @@ Proof.
   - destruct o; try contradiction; discriminate.
 Qed.
 
-Lemma run_handler_hs3 strict role cur script : script_ok strict role cur script ->
+Lemma run_handler_hs3 strict role cur script : script_ok strict role cur script -> no_abandoned_read script ->
   forall f r w, HS3 r w ->
   match run_handler maxc f script r w with
   | Ok (_, r') w' => HS3 r' w'
@@ -1559,8 +1559,8 @@ Lemma run_handler_hs3 strict role cur script : script_ok strict role cur script 
   end.
 Proof.
   induction 1 as [cur|cur n rest H IH|cur rest H IH|cur k rest H IH|cur s rest Hacc H IH|cur rest H IH
-                  |cur s n rest H IH|cur s rest H IH|cur d c rest Hd|cur k rest|cur n rest H IH];
-    intros f r w HSr; (destruct f as [|f]; [cbn [run_handler]; discriminate|]); cbn [run_handler].
+                  |cur s n rest H IH|cur s rest H IH|cur d c rest Hd|cur k rest|cur n rest H IH|cur n rest H IH];
+    intros NA; try (specialize (IH ltac:(inversion NA; assumption))); intros f r w HSr; (destruct f as [|f]; [cbn [run_handler]; discriminate|]); cbn [run_handler].
   - apply HS3_ev, HSr.
   - pose proof (await_input_hs3 (io_fuel w 0) (Some n) r w HSr) as A.
     destruct (await_input maxc (io_fuel w 0) (Some n) r w) as [[[[c b]|k] r1] w1|o w1]; [| |exact A];
@@ -1588,6 +1588,8 @@ Proof.
     destruct (await_input maxc (io_fuel w 0) (Some n) r w) as [[[[c b]|k] r1] w1|o w1]; [| |exact A].
     + apply IH. apply HS3_ev, HS3_ev, A.
     + apply HS3_ev, HS3_ev, A.
+  - (* 11 n is not a script that awaits its reads *)
+    inversion NA.
 Qed.
 
 (* ---- input.read(buf).await outside poll_input: Request::record_boundary, Token::parse_request ---- *)
@@ -1875,11 +1877,11 @@ Proof.
 Qed.
 
 (* Token::run never ends in the wait-for cycle *)
-Lemma run_loop_nd3 scripts : scripts_ok true scripts ->
+Lemma run_loop_nd3 scripts : scripts_ok true scripts -> Forall no_abandoned_read scripts ->
   forall fuel p served w, parser_ok p -> world_ok w -> PS3 p w [] ->
   fst (run_loop norm maxc fuel p scripts served w) <> ODeadlock.
 Proof.
-  intros Hscripts. induction fuel as [|f IH]; intros p served w Hp Wok HPS; [cbn [run_loop fst]; discriminate|].
+  intros Hscripts Hna. induction fuel as [|f IH]; intros p served w Hp Wok HPS; [cbn [run_loop fst]; discriminate|].
   cbn [run_loop]. destruct (stopped w); [cbn [fst]; discriminate|].
   pose proof (parse_request_ok norm maxc (io_fuel w 0) p [] w Hp Wok ltac:(apply Forall_nil) ltac:(rewrite len_nil; lia)
                 ltac:(rewrite io_fuel_eq; lia)) as PR.
@@ -1904,7 +1906,9 @@ Proof.
       [exact Hscripts|]. apply Forall_last; [exact Hscripts|]. intros role'. constructor. }
   pose proof (run_handler_ok norm maxc true role _ script Hscript (length script + 2) r0 w2 ltac:(lia) GR0
                 (ws_ok _ _ S2 (ws_ok _ _ S1 Wok)) eq_refl St0) as RH.
-  pose proof (run_handler_hs3 maxc true role _ script Hscript (length script + 2) r0 w2 HS2) as RN.
+  assert (Hnascript : no_abandoned_read script).
+  { subst script. apply Forall_nth_default; [exact Hna|]. apply Forall_last; [exact Hna|constructor]. }
+  pose proof (run_handler_hs3 maxc true role _ script Hscript Hnascript (length script + 2) r0 w2 HS2) as RN.
   unfold hpost in RH.
   destruct (run_handler maxc (length script + 2) script r0 w2) as [[st r1] w3|o w3]; [|cbn [fst]; exact RN].
   destruct RH as ((G1 & S3 & _) & Hst).
@@ -2123,10 +2127,10 @@ Qed.
 
 Theorem client_never_deadlocks : client_never_deadlocks_stmt.
 Proof.
-  intros norm maxc scripts B cs w0 HB Hs Hsegs Hcl Hlog Hnf.
+  intros norm maxc scripts B cs w0 HB Hs Hna Hsegs Hcl Hlog Hnf.
   assert (Wok : world_ok w0) by (unfold world_ok; rewrite Hsegs; apply (client_world cs 0 0 Hcl)).
   destruct (run_loop_total norm maxc scripts B w0 Wok Hs HB) as (w & [E|[E _]]); [rewrite E; reflexivity|].
-  exfalso. apply (run_loop_nd3 norm maxc scripts Hs (nb w0 + 4) (new_parser B) 0%nat w0 (new_parser_ok B HB) Wok);
+  exfalso. apply (run_loop_nd3 norm maxc scripts Hs Hna (nb w0 + 4) (new_parser B) 0%nat w0 (new_parser_ok B HB) Wok);
     [|rewrite E; reflexivity].
   split; [apply world_ok_remaining; exact Wok|]. split; [exact Hnf|]. exists false.
   rewrite Hlog, Hsegs. cbn [new_parser st held sk sprem spad rvm]. apply Q3_init. exact Hcl.
@@ -2172,11 +2176,14 @@ Qed.
 
 (* the hypotheses of the theorem hold for it *)
 Example ex3_hyps :
-  64 < SIZE_LIMIT - 8 /\ scripts_ok true ex3_scripts /\ segs (ex3_w 1) = enc_client (ex3_cs 1) /\ client_segs 0 0 (ex3_cs 1) /\
+  64 < SIZE_LIMIT - 8 /\ scripts_ok true ex3_scripts /\ Forall no_abandoned_read ex3_scripts /\
+  segs (ex3_w 1) = enc_client (ex3_cs 1) /\ client_segs 0 0 (ex3_cs 1) /\
   wlog (ex3_w 1) = [] /\ no_fault (wscript (ex3_w 1)).
 Proof.
   split; [vm_compute; reflexivity|]. split.
   { constructor; [|constructor]. intros role. apply SO_read_all. apply (SO_write true role _ 6 2 [104; 105]). apply SO_nil. }
+  split.
+  { constructor; [|constructor]. apply NA_read_all. apply (NA_write 6 2 [104; 105]). apply NA_nil. }
   split; [reflexivity|]. split.
   { cbn [client_segs ex3_cs]. split; [reflexivity|]. split; [lia|]. split; [apply ex3_creq_ok; reflexivity|].
     split; [reflexivity|]. split; [vm_compute; discriminate|]. split; [apply ex3_creq_ok; reflexivity|exact I]. }
@@ -2195,8 +2202,8 @@ Proof. vm_compute. repeat split; try reflexivity; auto 12. Qed.
 Example ex3_never_deadlocks norm maxc :
   fst (run_loop norm maxc (nb (ex3_w 1) + 4) (new_parser 64) ex3_scripts 0 (ex3_w 1)) = ORet.
 Proof.
-  destruct ex3_hyps as (H1 & H2 & H3 & H4 & H5 & H6).
-  exact (client_never_deadlocks norm maxc ex3_scripts 64 (ex3_cs 1) (ex3_w 1) H1 H2 H3 H4 H5 H6).
+  destruct ex3_hyps as (H1 & H2 & H2' & H3 & H4 & H5 & H6).
+  exact (client_never_deadlocks norm maxc ex3_scripts 64 (ex3_cs 1) (ex3_w 1) H1 H2 H2' H3 H4 H5 H6).
 Qed.
 
 (* the hypothesis on the gates matters: a client that waits for two EndRequest records after one request is waited for in
@@ -2210,7 +2217,69 @@ Proof.
   cbn [client_segs ex3_cs]. intros (_ & _ & _ & H & _). vm_compute in H. discriminate H.
 Qed.
 
+(* the hypothesis [no_abandoned_read] matters too (compare ex2p_abandoned_read_deadlocks in PeerProofs2.v).  Request 1
+   carries a GetValues query before its Stdin data; the transport accepts 3 bytes and is then not ready once.  The first
+   handler reads "abc", polls a read once and drops it (op 11) when 3 bytes of the reply to the query are written, writes
+   "hi" to Stdout and reads to the end.  Every other hypothesis holds, but the log is no longer a sequence of records: the
+   client never counts the EndRequest of request 1, request 2 is never released and the task waits for it. *)
+Definition ex3p_c1 : creq :=
+  mkCReq (mkPreamble [] 1 ROLE_Responder FLAG_KeepConn [] [] [] [])
+         [ mkRcd RT_GetValues 0 [14; 0; 70; 67; 71; 73; 95; 77; 65; 88; 95; 67; 79; 78; 78; 83] [];
+           mkRcd RT_Stdin 1 [97; 98; 99] [0; 0; 0; 0; 0]; mkRcd RT_Stdin 1 [] [] ].
+Definition ex3p_cs : list (N * N * creq) := [ (0, 0, ex3p_c1); (1, 0, ex3_c [100; 101]) ].
+Definition ex3p_w : world := mkW [] [3; 0] (enc_client ex3p_cs) [] 0 1 0 false false [].
+Definition ex3p_scripts (op : N) : list (list N) := [[1; 3; op; 5; 6; 6; 2; 104; 105; 2]; [2]].
+
+Lemma ex3p_creq_ok : creq_ok ex3p_c1.
+Proof.
+  unfold creq_ok, ex3p_c1. cbn [c_pre c_srs w_idle w_pieces w_endjunk w_role w_id].
+  split.
+  { unfold preamble_ok. cbn [w_idle w_id w_role w_flags w_beginpad w_pieces w_endjunk w_endpad].
+    repeat split; try constructor; try (vm_compute; reflexivity). }
+  split; [constructor|]. split; [constructor|]. split; [constructor|]. split.
+  { repeat (constructor; [unfold rcd_ok; cbn [rt rid rbody rpad]; repeat split; try (vm_compute; reflexivity);
+                          apply bytes_okb_ok; reflexivity|]). constructor. }
+  split.
+  { repeat (constructor; [split; cbn [rt]; discriminate|]). constructor. }
+  change (role_input_streams ROLE_Responder) with [RT_Stdin]. constructor; [|constructor]. vm_compute. reflexivity.
+Qed.
+
+Example ex3p_hyps :
+  64 < SIZE_LIMIT - 8 /\ scripts_ok true (ex3p_scripts 11) /\ ~ Forall no_abandoned_read (ex3p_scripts 11) /\
+  Forall no_abandoned_read (ex3p_scripts 1) /\
+  segs ex3p_w = enc_client ex3p_cs /\ client_segs 0 0 ex3p_cs /\ wlog ex3p_w = [] /\ no_fault (wscript ex3p_w).
+Proof.
+  split; [vm_compute; reflexivity|]. split.
+  { constructor; [|constructor; [|constructor]]; intros role.
+    - apply SO_read. apply SO_poll. apply (SO_write true role _ 6 2 [104; 105; 2]). apply SO_read_all. apply SO_nil.
+    - apply SO_read_all. apply SO_nil. }
+  split.
+  { intros H. inversion H as [|x l Hx Hl]; subst. inversion Hx as [|n rest Hr| | | | | | | | |]; subst. inversion Hr. }
+  split.
+  { constructor; [|constructor; [|constructor]].
+    - apply NA_read. apply NA_read. apply (NA_write 6 2 [104; 105; 2]). apply NA_read_all. apply NA_nil.
+    - apply NA_read_all. apply NA_nil. }
+  split; [reflexivity|]. split.
+  { cbn [client_segs ex3p_cs]. split; [reflexivity|]. split; [lia|]. split; [exact ex3p_creq_ok|].
+    split; [reflexivity|]. split; [vm_compute; discriminate|]. split; [apply ex3_creq_ok; reflexivity|exact I]. }
+  split; [reflexivity|]. repeat constructor; discriminate.
+Qed.
+
+Example ex3p_abandoned_read_deadlocks :
+  let r := run_loop (fun b => b) 10 (nb ex3p_w + 4) (new_parser 64) (ex3p_scripts 11) 0 ex3p_w in
+  fst r = ODeadlock /\ fst (counts (wlog (snd r))) = 0 /\ remaining (snd r) = enc_rcds (creq_rcds (ex3_c [100; 101])) /\
+  In [11; 2; 0; 1] (events (snd r)) /\ In [8] (events (snd r)).
+Proof. vm_compute. repeat split; try reflexivity; tauto. Qed.
+
+Example ex3p_awaited_read_returns :
+  let r := run_loop (fun b => b) 10 (nb ex3p_w + 4) (new_parser 64) (ex3p_scripts 1) 0 ex3p_w in
+  fst r = ORet /\ counts (wlog (snd r)) = (2, 1) /\ remaining (snd r) = [] /\ In [100; 101] (events (snd r)).
+Proof. vm_compute. repeat split; try reflexivity; tauto. Qed.
+
 Print Assumptions ex3_hyps.
+Print Assumptions ex3p_hyps.
+Print Assumptions ex3p_abandoned_read_deadlocks.
+Print Assumptions ex3p_awaited_read_returns.
 Print Assumptions ex3_returns.
 Print Assumptions ex3_never_deadlocks.
 Print Assumptions ex3_greedy_deadlocks.
